@@ -133,6 +133,9 @@ def run(ctx):
             N = ctx.rng.randint(0, 20)
             ms = ctx.rng.choice([0, 1, 3, 10, 25])
             none = ctx.rng.random() < 0.15
+            if r % 12 in (1, 5):             # exactly as many elements as maxseqs: nothing to discard, the input comes back unchanged
+                N = ctx.rng.randint(2, 9)
+                ms, none = N, False
             vals = [ctx.rng.randint(1, 6) for _ in range(N)]
             strs = [f"CAS{v}F" for v in vals]
             form = ctx.rng.choice([0, 1, 2, 2])
